@@ -1,6 +1,7 @@
 package rules
 
 import (
+	"sort"
 	"fmt"
 	"go/types"
 	"strings"
@@ -238,14 +239,19 @@ func init() {
 			// re-slice of the batch being delivered (they would share one backing array)
 			if fn := x.fn(psPkg + ".(*BatchPublisher).publish"); fn != nil {
 				_ = strings.TrimSpace
-				evF := fieldNamed(fn, "BatchPublisher", "events")
 				ok, n := true, 0
-				for _, st := range storesTo(fn, evF) {
-					n++
-					switch prog.Strip(st.Val).(type) {
-					case *ssa.Const, *ssa.MakeSlice:
-					default:
-						ok = false
+				for _, f := range x.flushFns(fn) {
+					evF := fieldNamed(f, "BatchPublisher", "events")
+					if evF == nil {
+						continue
+					}
+					for _, st := range storesTo(f, evF) {
+						n++
+						switch prog.Strip(st.Val).(type) {
+						case *ssa.Const, *ssa.MakeSlice:
+						default:
+							ok = false
+						}
 					}
 				}
 				x.check(n >= 1 && ok, "func="+prog.FnName(fn)+" pending-batch-restarts-fresh", x.fpos(fn), "the pending batch restarts from nil or a fresh slice", "the pending batch is a re-slice of the batch being delivered: a Publish during the flush overwrites events that were not delivered yet")
@@ -352,6 +358,20 @@ func fieldNamed(fn *ssa.Function, typ, name string) *types.Var {
 		}
 	}
 	return nil
+}
+
+// flushFns lists the flush function of the batching publisher together with the
+// methods of the same receiver it calls synchronously (a helper that takes the batch).
+func (x *Ctx) flushFns(publish *ssa.Function) []*ssa.Function {
+	var out []*ssa.Function
+	for f := range x.closureOf([]*ssa.Function{publish}, []string{"server/backend/pubsub"}) {
+		if f == publish || (f.Signature.Recv() != nil && publish.Signature.Recv() != nil && namedOf(f.Signature.Recv().Type()) != nil &&
+			namedOf(publish.Signature.Recv().Type()) != nil && namedOf(f.Signature.Recv().Type()).Obj() == namedOf(publish.Signature.Recv().Type()).Obj()) {
+			out = append(out, f)
+		}
+	}
+	sort.Slice(out, func(i, j int) bool { return out[i].Pos() < out[j].Pos() })
+	return out
 }
 
 func init() {
